@@ -17,6 +17,11 @@ Oracle (property statement, nothing more)
           cancelled and does not strand the others.
   datagram: only the waiter clauses (resumed once the socket accepts datagrams again / not stranded by a cancelled sibling /
           done after close).
+  history (all three harnesses): senders may be abandoned while suspended (cancel event, or the application's own
+          asyncio.timeout around a send, after which the same task issues its next send); after every sender has ended and
+          the peer has read everything, one more send is issued if the connection is alive and was not closed locally: it
+          must complete too (a sender abandoned earlier must not strand the later ones; a sender never hangs) -- keys
+          C20/<harness>/stranded-after-cancel/later-send, C20/<harness>/stranded-after-resume/later-send.
 """
 from __future__ import annotations
 
@@ -41,8 +46,11 @@ RULE = (
     "1-5 concurrent sender tasks x 1-3 sends each (send_all / send_all_from_iterable with empty chunks, sizes 1..20000; datagrams "
     "8000..60000 bytes) on the real asyncio adapters; link capacity 1..4096 (stream) / send room 0..3 datagrams; peer reader script "
     "(reads, stops, resumes after d, k bytes every d); 0-5 events at world-chosen times in world-chosen order from {pause, resume, "
-    "RST, FIN, local aclose(), cancel sender i}; liveness clauses evaluated after the last event (peer reads again unless the "
-    "connection was lost)"
+    "RST, FIN, local aclose(), cancel sender i}; in a third of the faulty runs the application gives sends up after its own timeout "
+    "(asyncio.timeout 1/64..1 s around the send: the sender is abandoned while suspended and goes on with its next send) and pauses "
+    "0..0.5 s between sends; liveness clauses evaluated after the last event (peer reads again unless the connection was lost); "
+    "history: once every sender has ended (some abandoned while suspended, the peer having drained the buffer with nobody waiting) "
+    "one more send is issued on the still healthy, not locally closed transport and must complete like any other (keys .../later-send)"
 )
 COMPONENTS_REAL = [
     "easynetwork.lowlevel.api_async.backend._asyncio._flow_control.WriteFlowControl",
@@ -80,6 +88,47 @@ class _Sender:
         self.cancelled_by_harness = False
         self.finished = False
         self.error: BaseException | None = None
+        # application behaviour around each send (drawn per run, default: none): the application gives a send up after
+        # `timeouts[j]` seconds (asyncio.timeout around the send: the sender is abandoned while suspended, its task goes on
+        # with the next send) and waits `gaps[j]` seconds before issuing send j
+        self.timeouts: list[float | None] = [None] * len(ops)
+        self.gaps: list[float] = [0.0] * len(ops)
+
+_OP_TIMEOUTS = (None, 1 / 64, 4 / 64, 16 / 64, 1.0)
+_OP_GAPS = (0.0, 1 / 64, 8 / 64, 0.5)
+
+
+def _draw_abandon(world: World, senders: list[_Sender], baseline: bool) -> bool:
+    """a third of the faulty runs: sends are given up by the application after a timeout / issued after a pause"""
+    if baseline or not world.chance("swarm.op_timeouts", 1, 3):
+        return False
+    for s in senders:
+        for j in range(len(s.ops)):
+            s.timeouts[j] = world.pick("op.timeout", _OP_TIMEOUTS)
+            s.gaps[j] = world.pick("op.gap", _OP_GAPS)
+    return True
+
+
+def _all_completed(s: _Sender) -> bool:
+    """every send of the sender returned normally, except those the application itself gave up (timeout set and expired)"""
+    return len(s.outcomes) == len(s.ops) and all(o == "ok" or (o == "timeout" and t is not None) for o, t in zip(s.outcomes, s.timeouts))
+
+
+async def _send_with_timeout(world: World, timeout: float | None, send: Callable[[], Any]) -> bool:
+    """True: the send returned; False: the application's own timeout expired (the send was abandoned)"""
+    if timeout is None:
+        await send()
+        return True
+    try:
+        async with asyncio.timeout(timeout) as cm:
+            await send()
+    except TimeoutError:
+        if not cm.expired():
+            raise
+        world.fault("cancel_at_time")
+        return False
+    return True
+
 
 _LOCAL_EVENTS = ("cancel", "aclose", "aclose_cancel")  # performed by the application task; everything else is the remote side / the kernel
 
@@ -156,6 +205,7 @@ def _h_stream(world: World) -> None:
             ops.append((kind, sizes))
         senders.append(_Sender(i, ops))
     total_bytes = sum(sum(sz) for s in senders for _, sz in s.ops)
+    abandon = _draw_abandon(world, senders, baseline)
 
     # peer reader script before any event: reads everything / is stopped from the start / reads k bytes every d
     peer_mode = "reads" if baseline else world.pick("peer.mode", ("reads", "stopped", "slow"))
@@ -210,7 +260,7 @@ def _h_stream(world: World) -> None:
         return cls(wfail[1], os.strerror(wfail[1]))
 
     lib.fault_plan = write_fault
-    notes = {"capacity": capacity, "peer": peer_mode, "senders": [[(k, sz) for k, sz in s.ops] for s in senders], "events": events, "write_fails_from_call": wfail}
+    notes = {"capacity": capacity, "peer": peer_mode, "senders": [[(k, sz) for k, sz in s.ops] for s in senders], "events": events, "write_fails_from_call": wfail, "op_timeouts_gaps": [list(zip(s.timeouts, s.gaps)) for s in senders] if abandon else None}
     world.notes.update({k: str(v) for k, v in notes.items()})
 
     def describe() -> str:
@@ -218,7 +268,9 @@ def _h_stream(world: World) -> None:
 
     async def sender_main(s: _Sender, transport: Any) -> None:
         try:
-            for kind, sizes in s.ops:
+            for j, (kind, sizes) in enumerate(s.ops):
+                if s.gaps[j]:
+                    await asyncio.sleep(s.gaps[j])
                 if st["closing"] or st["lost"]:
                     break  # a send issued on a transport the application closed / lost is outside the property
                 n = sum(sizes)
@@ -229,9 +281,16 @@ def _h_stream(world: World) -> None:
                 world.log("send_start", s.idx, kind, n)
                 try:
                     if kind == "send_all":
-                        await transport.send_all(_data(n))
+                        returned = await _send_with_timeout(world, s.timeouts[j], lambda: transport.send_all(_data(n)))
                     else:
-                        await transport.send_all_from_iterable([_data(k) for k in sizes])
+                        returned = await _send_with_timeout(world, s.timeouts[j], lambda: transport.send_all_from_iterable([_data(k) for k in sizes]))
+                    if not returned:
+                        # given up by the application while suspended (its bytes stay queued in the transport, in issue
+                        # order); the task goes on with its next send
+                        s.outcomes.append("timeout")
+                        world.log("send_end", s.idx, "timeout")
+                        world.probe("send_abandoned_by_timeout")
+                        continue
                 except ConnectionError:
                     s.outcomes.append("connection-error")
                     world.log("send_end", s.idx, "connection-error")
@@ -328,6 +387,49 @@ def _h_stream(world: World) -> None:
                             world.probe("forced_close_with_suspended_senders")
                         st["forcer"] = loop.create_task(_forced_close(world, transport, who - 1, "c20-closer-cancelled"), name="c20-forcer")
 
+            async def all_senders_end(bound: float, suffix: str) -> None:
+                """liveness + outcome clauses over every sender started so far (`suffix` distinguishes the later-send phase)"""
+                tasks = [s.task for s in senders if s.task is not None]
+                ok = await wait_until(world, lambda: all(t.done() for t in tasks) or world.fatal is not None, max_time=bound, step=0.25)
+                _check_fatal(world)
+                if not ok:
+                    stuck = [s.idx for s in senders if s.task is not None and not s.task.done()]
+                    if st["forced"] and not st["lost"]:
+                        clause, key = "fail-after-forced-close", "C20/stream/stranded-after-forced-close"
+                    elif st["lost"]:
+                        clause, key = "fail-on-connection-loss", "C20/stream/stranded-after-connection-loss"
+                    elif any(s.cancelled_by_harness or "timeout" in s.outcomes for s in senders):
+                        clause, key = "cancel-does-not-strand", "C20/stream/stranded-after-cancel"
+                    else:
+                        clause, key = "resumed-when-peer-reads", "C20/stream/stranded-after-resume"
+                    if st["closing"] and not (st["forced"] and not st["lost"]):
+                        key += "/local-aclose"
+                    key += suffix
+                    what = "a send issued after every earlier sender had ended (sender " + str(stuck) + ") is" if suffix else f"senders {stuck} are"
+                    raise Violation(clause, f"{what} still suspended {bound} virtual seconds after the last event although {'the connection was lost' if st['lost'] else 'the local aclose() was cancelled (forced close, peer not reading)' if st['forced'] else 'the peer reads again'}; {describe()}", key=key)
+                for s in senders:
+                    assert s.task is not None
+                    if s.task.cancelled():
+                        if not s.cancelled_by_harness:
+                            raise Violation("sender-outcome", f"sender {s.idx} ended cancelled although nobody cancelled it; {describe()}", key="C20/stream/spurious-cancel")
+                        continue
+                    exc = s.task.exception()
+                    if exc is not None:
+                        raise exc
+                    for j, o in enumerate(s.outcomes):
+                        if o == "timeout" and s.timeouts[j] is not None:
+                            continue  # the application's own asyncio.timeout() expired
+                        if o not in ("ok", "connection-error", "cancelled"):
+                            raise Violation(
+                                "fail-with-connection-error",
+                                f"sender {s.idx}: a send failed with {o} ({s.error}); only a connection error is allowed; {describe()}",
+                                key=f"C20/stream/send-raises/{o}",
+                            )
+                    if "connection-error" in s.outcomes and not (st["lost"] or st["closing"]):
+                        raise Violation("sender-outcome", f"sender {s.idx} got a connection error although the connection was neither lost nor closed; {describe()}", key="C20/stream/spurious-connection-error")
+                    if not st["lost"] and not st["closing"] and not s.cancelled_by_harness and not _all_completed(s):
+                        raise Violation("resumed-when-peer-reads", f"sender {s.idx} did not complete all its sends: {s.outcomes}; {describe()}", key="C20/stream/incomplete")
+
             for when, kind, who, yields, via in events:
                 if via == "world":
                     world.at(t0 + when, lambda kind=kind, who=who: do_event(kind, who))
@@ -353,42 +455,24 @@ def _h_stream(world: World) -> None:
             if len(suspended) >= 2:
                 world.probe("several_suspended_at_last_fault")
             bound = 20.0 + 0.25 * (total_bytes / min(capacity, 4096) + 10)
-            tasks = [s.task for s in senders if s.task is not None]
-            ok = await wait_until(world, lambda: all(t.done() for t in tasks) or world.fatal is not None, max_time=bound, step=0.25)
-            _check_fatal(world)
-            if not ok:
-                stuck = [s.idx for s in senders if s.task is not None and not s.task.done()]
-                if st["forced"] and not st["lost"]:
-                    clause, key = "fail-after-forced-close", "C20/stream/stranded-after-forced-close"
-                elif st["lost"]:
-                    clause, key = "fail-on-connection-loss", "C20/stream/stranded-after-connection-loss"
-                elif any(s.cancelled_by_harness for s in senders):
-                    clause, key = "cancel-does-not-strand", "C20/stream/stranded-after-cancel"
-                else:
-                    clause, key = "resumed-when-peer-reads", "C20/stream/stranded-after-resume"
-                if st["closing"] and not (st["forced"] and not st["lost"]):
-                    key += "/local-aclose"
-                raise Violation(clause, f"senders {stuck} are still suspended {bound} virtual seconds after the last event although {'the connection was lost' if st['lost'] else 'the local aclose() was cancelled (forced close, peer not reading)' if st['forced'] else 'the peer reads again'}; {describe()}", key=key)
-            for s in senders:
-                assert s.task is not None
-                if s.task.cancelled():
-                    if not s.cancelled_by_harness:
-                        raise Violation("sender-outcome", f"sender {s.idx} ended cancelled although nobody cancelled it; {describe()}", key="C20/stream/spurious-cancel")
-                    continue
-                exc = s.task.exception()
-                if exc is not None:
-                    raise exc
-                for o in s.outcomes:
-                    if o not in ("ok", "connection-error", "cancelled"):
-                        raise Violation(
-                            "fail-with-connection-error",
-                            f"sender {s.idx}: a send failed with {o} ({s.error}); only a connection error is allowed; {describe()}",
-                            key=f"C20/stream/send-raises/{o}",
-                        )
-                if "connection-error" in s.outcomes and not (st["lost"] or st["closing"]):
-                    raise Violation("sender-outcome", f"sender {s.idx} got a connection error although the connection was neither lost nor closed; {describe()}", key="C20/stream/spurious-connection-error")
-                if not st["lost"] and not st["closing"] and not s.cancelled_by_harness and s.outcomes != ["ok"] * len(s.ops):
-                    raise Violation("resumed-when-peer-reads", f"sender {s.idx} did not complete all its sends: {s.outcomes}; {describe()}", key="C20/stream/incomplete")
+            await all_senders_end(bound, "")
+            # ---- history (still "after the last fault"): the connection is alive, the application did not close it, every
+            #      earlier sender has ended -- possibly abandoned (cancelled) while suspended, its waiter is gone, and the peer
+            #      then drained the write buffer with nobody waiting.  A send issued NOW must complete like any other one
+            #      (its bytes handed to the OS on return); a sender abandoned earlier must not strand the later ones.
+            if not st["lost"] and not st["closing"]:
+                if any((s.cancelled_by_harness and "cancelled" in s.outcomes) or "timeout" in s.outcomes for s in senders):
+                    world.probe("later_send_after_abandoned_suspended_sender")
+                if world.pick("late.when", ("after-drain", "at-once")) == "after-drain":
+                    # everything issued so far (abandoned sends included: their bytes stay queued) has been accepted by the socket
+                    await wait_until(world, lambda: pipe.total_written >= st["issued"] or st["lost"] or world.fatal is not None, max_time=bound, step=1 / 64)
+                    _check_fatal(world)
+                lkind = world.pick("late.op", ("send_all", "send_all_from_iterable"))
+                lsize = 1 + world.choose("late.size", max_size)
+                late = _Sender(len(senders), [(lkind, [lsize] if lkind == "send_all" else [0, lsize, 0])])
+                senders.append(late)
+                late.task = loop.create_task(sender_main(late, transport), name=f"c20-sender-{late.idx}")
+                await all_senders_end(20.0 + 0.25 * (lsize / min(capacity, 4096) + 10), "/later-send")
             if st["lost"]:
                 world.probe("ended_with_connection_lost")
             if st["closer"] is not None:
@@ -429,6 +513,7 @@ def _h_dgram(world: World, flavour: str) -> None:
         ops = [("sendto", [world.pick("dsize", (30000, 8000, 20000, 45000, 60000, 100))]) for _ in range(1 + world.choose("nsends", 3))]
         senders.append(_Sender(i, ops))
     baseline = world.choose("swarm.faults", 3) == 0  # a third of the runs: socket always writable, no events
+    abandon = _draw_abandon(world, senders, baseline)
     room0 = None if baseline else world.pick("room0", (0, 0, 1, 3, None))
     nevents = 0 if baseline else world.choose("nevents", 6)
     # (finding C20/dgram-listener/stranded-after-forced-close*, D21, is fixed in /repo: a cancelled local aclose() is generated
@@ -457,7 +542,7 @@ def _h_dgram(world: World, flavour: str) -> None:
             cls = {errno.ECONNREFUSED: ConnectionRefusedError, errno.EPIPE: BrokenPipeError, errno.ECONNRESET: ConnectionResetError}[dfail[2]]
             return cls(dfail[2], os.strerror(dfail[2]))
         return None
-    notes = {"flavour": flavour, "room0": room0, "senders": [[sz[0] for _, sz in s.ops] for s in senders], "events": events, "sendto_fails": dfail}
+    notes = {"flavour": flavour, "room0": room0, "senders": [[sz[0] for _, sz in s.ops] for s in senders], "events": events, "sendto_fails": dfail, "op_timeouts_gaps": [list(zip(s.timeouts, s.gaps)) for s in senders] if abandon else None}
     world.notes.update({k: str(v) for k, v in notes.items()})
 
     def describe() -> str:
@@ -466,13 +551,19 @@ def _h_dgram(world: World, flavour: str) -> None:
 
     async def sender_main(s: _Sender, send: Callable[[bytes], Any]) -> None:
         try:
-            for _, sizes in s.ops:
+            for j, (_, sizes) in enumerate(s.ops):
+                if s.gaps[j]:
+                    await asyncio.sleep(s.gaps[j])
                 if st["closing"]:
                     break
                 s.in_send = True
                 world.log("send_start", s.idx, sizes[0])
                 try:
-                    await send(_data(sizes[0]))
+                    if not await _send_with_timeout(world, s.timeouts[j], lambda: send(_data(sizes[0]))):
+                        s.outcomes.append("timeout")  # given up by the application while suspended; the task goes on
+                        world.log("send_end", s.idx, "timeout")
+                        world.probe("send_abandoned_by_timeout")
+                        continue
                 except ConnectionError:
                     s.outcomes.append("connection-error")
                     world.log("send_end", s.idx, "connection-error")
@@ -575,37 +666,56 @@ def _h_dgram(world: World, flavour: str) -> None:
             # -- except after a forced local close (aclose() cancelled): every suspended sender has to END even if the
             #    socket never accepts a datagram again
             sock.dgram_send_room = 0 if st["forced"] else None
-            tasks = [s.task for s in senders if s.task is not None]
             bound = 30.0
-            ok = await wait_until(world, lambda: all(t.done() for t in tasks) or world.fatal is not None, max_time=bound, step=0.25)
-            _check_fatal(world)
-            if not ok:
-                stuck = [s.idx for s in senders if s.task is not None and not s.task.done()]
-                if st["forced"]:
-                    clause, key = "fail-after-forced-close", f"C20/dgram-{flavour}/stranded-after-forced-close"
-                elif any(s.cancelled_by_harness for s in senders):
-                    clause, key = "cancel-does-not-strand", f"C20/dgram-{flavour}/stranded-after-cancel"
-                else:
-                    clause, key = "resumed-when-writable", f"C20/dgram-{flavour}/stranded-after-resume"
-                if st["closing"] and not st["forced"]:
-                    key += "/local-aclose"
-                raise Violation(clause, f"senders {stuck} are still suspended {bound} virtual seconds after {'the local aclose() was cancelled (forced close, socket still full)' if st['forced'] else 'the socket accepts datagrams again'}; {describe()}", key=key)
-            for s in senders:
-                assert s.task is not None
-                if s.task.cancelled():
-                    if not s.cancelled_by_harness:
-                        raise Violation("sender-outcome", f"sender {s.idx} ended cancelled although nobody cancelled it; {describe()}", key=f"C20/dgram-{flavour}/spurious-cancel")
-                    continue
-                exc = s.task.exception()
-                if exc is not None:
-                    raise exc
-                for o in s.outcomes:
-                    if o not in ("ok", "connection-error", "cancelled"):
-                        raise Violation("fail-with-connection-error", f"sender {s.idx}: a send failed with {o} ({s.error}); {describe()}", key=f"C20/dgram-{flavour}/send-raises/{o}")
-                if "connection-error" in s.outcomes and not st["closing"]:
-                    raise Violation("sender-outcome", f"sender {s.idx} got a connection error although the transport was not closed; {describe()}", key=f"C20/dgram-{flavour}/spurious-connection-error")
-                if not st["closing"] and not s.cancelled_by_harness and s.outcomes != ["ok"] * len(s.ops):
-                    raise Violation("resumed-when-writable", f"sender {s.idx} did not complete all its sends: {s.outcomes}; {describe()}", key=f"C20/dgram-{flavour}/incomplete")
+
+            async def all_senders_end(suffix: str) -> None:
+                tasks = [s.task for s in senders if s.task is not None]
+                ok = await wait_until(world, lambda: all(t.done() for t in tasks) or world.fatal is not None, max_time=bound, step=0.25)
+                _check_fatal(world)
+                if not ok:
+                    stuck = [s.idx for s in senders if s.task is not None and not s.task.done()]
+                    if st["forced"]:
+                        clause, key = "fail-after-forced-close", f"C20/dgram-{flavour}/stranded-after-forced-close"
+                    elif any(s.cancelled_by_harness or "timeout" in s.outcomes for s in senders):
+                        clause, key = "cancel-does-not-strand", f"C20/dgram-{flavour}/stranded-after-cancel"
+                    else:
+                        clause, key = "resumed-when-writable", f"C20/dgram-{flavour}/stranded-after-resume"
+                    if st["closing"] and not st["forced"]:
+                        key += "/local-aclose"
+                    key += suffix
+                    raise Violation(clause, f"{'a send issued after every earlier sender had ended is' if suffix else 'senders ' + str(stuck) + ' are'} still suspended {bound} virtual seconds after {'the local aclose() was cancelled (forced close, socket still full)' if st['forced'] else 'the socket accepts datagrams again'}; {describe()}", key=key)
+                for s in senders:
+                    assert s.task is not None
+                    if s.task.cancelled():
+                        if not s.cancelled_by_harness:
+                            raise Violation("sender-outcome", f"sender {s.idx} ended cancelled although nobody cancelled it; {describe()}", key=f"C20/dgram-{flavour}/spurious-cancel")
+                        continue
+                    exc = s.task.exception()
+                    if exc is not None:
+                        raise exc
+                    for j, o in enumerate(s.outcomes):
+                        if o == "timeout" and s.timeouts[j] is not None:
+                            continue  # the application's own asyncio.timeout() expired
+                        if o not in ("ok", "connection-error", "cancelled"):
+                            raise Violation("fail-with-connection-error", f"sender {s.idx}: a send failed with {o} ({s.error}); {describe()}", key=f"C20/dgram-{flavour}/send-raises/{o}")
+                    if "connection-error" in s.outcomes and not st["closing"]:
+                        raise Violation("sender-outcome", f"sender {s.idx} got a connection error although the transport was not closed; {describe()}", key=f"C20/dgram-{flavour}/spurious-connection-error")
+                    if not st["closing"] and not s.cancelled_by_harness and not _all_completed(s):
+                        raise Violation("resumed-when-writable", f"sender {s.idx} did not complete all its sends: {s.outcomes}; {describe()}", key=f"C20/dgram-{flavour}/incomplete")
+
+            await all_senders_end("")
+            # ---- history: the transport is open, every earlier sender has ended (possibly abandoned while suspended; the
+            #      socket then flushed the queue with nobody waiting): a datagram sent NOW must go through like any other
+            if not st["closing"]:
+                if any((s.cancelled_by_harness and "cancelled" in s.outcomes) or "timeout" in s.outcomes for s in senders):
+                    world.probe("later_send_after_abandoned_suspended_sender")
+                if world.pick("late.when", ("after-drain", "at-once")) == "after-drain":
+                    await asyncio.sleep(0.5)  # the socket accepts datagrams: asyncio's queue is flushed by now
+                    _check_fatal(world)
+                late = _Sender(len(senders), [("sendto", [world.pick("late.dsize", (100, 30000, 60000))])])
+                senders.append(late)
+                late.task = loop.create_task(sender_main(late, send), name=f"c20-dsender-{late.idx}")
+                await all_senders_end("/later-send")
             if st["closer"] is not None:
                 done, _ = await asyncio.wait([st["closer"]], timeout=bound)
                 if not done:
